@@ -7,6 +7,7 @@ import TongoProofs.C07
 import TongoGen.LevelMask
 import TongoGen.CellDesc
 import TongoProofs.Lemmas.GenTiesA
+import TongoProofs.Lemmas.GenTiesC02
 /-! Property C02 — cell hash, depth and level follow the TON representation-hash definition.
 
 Model: `Tongo.Cell.info` = `newImmutableCell` on a whole tree (`computeInfo`/`levelStep` per cell, line by line),
@@ -358,6 +359,44 @@ bit length below 2⁶². -/
 theorem gen_d2 (bitLen : Nat) (h : bitLen < 2^62) :
     Gen.CellDesc.d2 (BitVec.ofNat 64 bitLen) = (Tongo.d2 bitLen).toBitVec :=
   GenTies.gen_d2 bitLen h
+
+/-- tie (X4, regenerated from boc/cell.go): the length `(c.BitSize()+7)/8 + 2` of the slice allocated by
+`bocReprWithoutRefs`, REGENERATED on every run (Go's signed division), is the length of the model's `reprNoRefs`
+(two descriptor bytes and the topped-up data), for every bit length below 2⁶². -/
+theorem gen_reprLen (bits : List Bool) (h : bits.length < 2^62) (ty nrefs mask : Nat) :
+    (Tongo.reprNoRefs ty bits nrefs mask).length = (Gen.CellDesc.reprLen (BitVec.ofNat 64 bits.length)).toNat :=
+  GenTies.gen_reprLen bits h ty nrefs mask
+
+/-- tie (X4, regenerated from boc/cell.go): the condition `c.BitSize()%8 != 0` of `bocReprWithoutRefs`, REGENERATED
+on every run (Go's signed remainder), is `n % 8 ≠ 0`, the condition under which the model's `Bits.addTag` adds the
+completion tag. -/
+theorem gen_tagNeeded (n : Nat) (h : n < 2^62) :
+    Gen.CellDesc.tagNeeded (BitVec.ofNat 64 n) = decide (n % 8 ≠ 0) :=
+  GenTies.gen_tagNeeded n h
+
+/-- tie (X4, regenerated from boc/cell.go): the completion tag `1 << (7 - c.BitSize()%8)` OR-ed into the last byte by
+`bocReprWithoutRefs`, REGENERATED on every run, is the byte `2^(7 - n % 8)`. -/
+theorem gen_tagBit (n : Nat) (h : n < 2^62) :
+    Gen.CellDesc.tagBit (BitVec.ofNat 64 n) = BitVec.ofNat 8 (2 ^ (7 - n % 8)) :=
+  GenTies.gen_tagBit n h
+
+/-- tie (X4, regenerated from boc/cell.go): the data part of `bocReprWithoutRefs` —
+`copy(res[2:], buffer); if c.BitSize()%8 != 0 { res[len(res)-1] |= 1 << (7 - c.BitSize()%8) }` with the REGENERATED
+condition and tag byte (`GenTies.orLast` is the `|=` on the last byte), applied to the zero-padded data bytes
+`Bits.bitsToBytes bits` — is the `Bits.toppedUp bits` hashed by the model, for every bit length below 2⁶². -/
+theorem gen_toppedUp (bits : List Bool) (h : bits.length < 2^62) :
+    Bits.toppedUp bits =
+      if Gen.CellDesc.tagNeeded (BitVec.ofNat 64 bits.length) then
+        GenTies.orLast (Bits.bitsToBytes bits) (Gen.CellDesc.tagBit (BitVec.ofNat 64 bits.length))
+      else Bits.bitsToBytes bits :=
+  GenTies.gen_toppedUp bits h
+
+/-- tie (X4, regenerated from boc/immutable_cell.go): the two bytes hashed for a child's depth in `newImmutableCell`
+(`binary.BigEndian.PutUint16(depthRepr[:], uint16(childDepth))`), REGENERATED on every run, are the model's
+`Tongo.be16` (used by `levelStep`), for every non-negative `int` depth. -/
+theorem gen_depthBytes (d : Nat) (h : d < 2^63) :
+    Gen.CellDesc.depthBytes (BitVec.ofNat 64 d) = (Tongo.be16 d).map UInt8.toBitVec :=
+  GenTies.gen_depthBytes d h
 /-! Merkle updates with pruned branches on both sides (the `state_update` of a real block): `WFExotic` admits them
 (two refs, `04 hash hash depth depth`, mask = (mask₁ ∨ mask₂) >> 1), so `impl_eq_spec` applies. -/
 
